@@ -79,6 +79,7 @@ struct VThread {
   void*     block_on;
   bool      yielded;
   bool      wait_timed_out;
+  uint64_t  hold_until;         // stalled: not scheduled before this many scheduling points have passed (unless nothing else can run)
   int       cur_op;             // index of the operation of the thread's program that is being executed
   uint64_t  op_draws;           // scheduling decisions drawn inside that operation
   int       passthrough;   // nesting depth
@@ -284,6 +285,11 @@ static VThread* pick_next(VThread* self /* may be excluded */, bool exclude_self
   VThread** c = cand; int cn = n;
   if (cn == 0) { c = candy; cn = ny; }
   if (cn == 0) return nullptr;
+  if (g_cfg.hold_steps) {   // stalled threads wait while somebody else can run
+    VThread* nh[MAX_VT]; int k = 0;
+    for (int i = 0; i < cn; i++) if (c[i]->hold_until <= g_stats.steps) nh[k++] = c[i];
+    if (k > 0 && k < cn) { for (int i = 0; i < k; i++) c[i] = nh[i]; cn = k; }
+  }
   if (g_cfg.strategy == ST_PCT) {
     VThread* best = c[0];
     for (int i = 1; i < cn; i++) if (c[i]->priority > best->priority) best = c[i];
@@ -368,6 +374,7 @@ static void maybe_switch(VThread* t, const mi_sim_site_t* site, bool harness) {
       if (g_nvt < 2) return;
       if (!sched_chance(t, p)) return;
       VThread* n = pick_next(t, true);
+      if (n && g_cfg.hold_steps && !harness && (site->flags & SF_HOT)) t->hold_until = g_stats.steps + g_cfg.hold_steps;   // stall here: the others run on for a while
       if (n) hand_over(t, n);
       return;
     }
